@@ -415,3 +415,114 @@ theorem ready_initial (os order : List Obj) (hnd : (order.map (·.name)).Nodup) 
   ⟨hnd, fun o _ => hnf o.name, ⟨fun k => by simp [initial], rfl⟩, fun n hn => by rw [hnf n] at hn; exact absurd hn (by decide)⟩
 
 end StepModel.GenFiles.Pass
+
+namespace StepModel.GenFiles.Pass
+open StepModel.Generated.CxxPass
+
+/-! ## entities (`checkEnts`): once every select is decided, one visit decides an entity -/
+
+/-- every select the schema knows has a verdict -/
+def SelSettled (os : List Obj) (m : Marks) : Prop := ∀ i o, lookup os i = some o → o.isSelect = true → m i ≠ .notknown
+
+theorem checkItem_id (os : List Obj) (s : St) (parent item : String) (noSel : Bool) (h : Good s) (hf : FDone os s.marks)
+    (hs : SelSettled os s.marks) : checkItem .inSchemaOrProcessed os s parent item noSel = (s, false) := by
+  unfold checkItem
+  cases hl : lookup os item with
+  | none => rfl
+  | some o =>
+    simp only
+    by_cases he : o.isEnum = true
+    · simp only [he, if_true, enumCan_of_noCant os s.marks item h.1 hf, Bool.not_true, Bool.false_eq_true, if_false]
+    · simp only [he, Bool.false_eq_true, if_false]
+      by_cases hsel : (o.isSelect && !noSel) = true
+      · simp only [hsel, if_true]
+        have hiss : o.isSelect = true := by
+          cases hh : o.isSelect with
+          | true => rfl
+          | false => rw [hh] at hsel; simp at hsel
+        by_cases hfo : o.foreign = true
+        · have hp : s.marks item = .processed := hf item (by rw [isForeign_of_lookup os item o hl]; exact hfo)
+          simp only [hfo, if_true, hp, ne_eq, not_true_eq_false, if_false]
+        · simp only [hfo, Bool.false_eq_true, if_false]
+          cases hm : s.marks item with
+          | cantprocess => exact absurd hm (h.1 item)
+          | notknown => exact absurd hm (hs item o hl hiss)
+          | canprocess => rfl
+          | processed => rfl
+      · simp only [hsel, Bool.false_eq_true, if_false]
+
+theorem checkItems_id (os : List Obj) (parent : String) (noSel : Bool) (items : List String) (s : St) (h : Good s)
+    (hf : FDone os s.marks) (hs : SelSettled os s.marks) :
+    checkItems .inSchemaOrProcessed os parent noSel s items = (s, false) := by
+  induction items with
+  | nil => rfl
+  | cons i is ih =>
+    simp only [checkItems, checkItem_id os s parent i noSel h hf hs, Bool.false_eq_true, if_false]
+    exact ih
+
+/-- an object that is not itself a select, visited when every select is decided, ends CANPROCESS and nothing else changes -/
+theorem visit_decides (os : List Obj) (s : St) (o : Obj) (h : Good s) (hf : FDone os s.marks) (hp : isForeign os o.name = false)
+    (hs : SelSettled os s.marks) (hn : s.marks o.name = .notknown) :
+    visit .inSchemaOrProcessed os s o = { s with marks := setMark s.marks o.name .canprocess } := by
+  have h1 : Good { s with marks := setMark s.marks o.name .canprocess } := ⟨noCant_set _ _ _ h.1 (by decide), h.2⟩
+  have hf1 : FDone os ({ s with marks := setMark s.marks o.name .canprocess } : St).marks :=
+    fdone_of_others os s.marks _ o.name hp (fun k hk => setMark_other _ _ _ _ hk) hf
+  have hs1 : SelSettled os ({ s with marks := setMark s.marks o.name .canprocess } : St).marks := by
+    intro i o' hl hsel
+    by_cases e : i = o.name
+    · rw [e]; simp [setMark]
+    · rw [show ({ s with marks := setMark s.marks o.name .canprocess } : St).marks i = s.marks i from setMark_other _ _ _ _ e]
+      exact hs i o' hl hsel
+  unfold visit
+  rw [if_neg (by rw [hn]; simp), foreignBlocked_false os s.marks o hf]
+  simp only [Bool.false_eq_true, if_false, checkItems_id os o.name false o.items _ h1 hf1 hs1,
+    checkItems_id os o.name true o.entAttrTypes _ h1 hf1 hs1]
+
+/-- `checkEnts` after a settled `checkTypes`: every entity that was NOTKNOWN is CANPROCESS afterwards; the state stays Good -/
+theorem sweep_entities_decided (os ents : List Obj) (hown : ∀ o ∈ ents, isForeign os o.name = false) (s : St) (h : Good s)
+    (hf : FDone os s.marks) (hs : SelSettled os s.marks) :
+    Good (sweep .inSchemaOrProcessed os ents s) ∧ FDone os (sweep .inSchemaOrProcessed os ents s).marks ∧
+    SelSettled os (sweep .inSchemaOrProcessed os ents s).marks ∧
+    (∀ o ∈ ents, (sweep .inSchemaOrProcessed os ents s).marks o.name ≠ .notknown) ∧
+    (∀ k, s.marks k ≠ .notknown → (sweep .inSchemaOrProcessed os ents s).marks k = s.marks k) := by
+  unfold sweep
+  induction ents generalizing s with
+  | nil => exact ⟨h, hf, hs, fun o ho => absurd ho List.not_mem_nil, fun _ _ => rfl⟩
+  | cons o rest ih =>
+    simp only [List.foldl_cons]
+    have hpo := hown o List.mem_cons_self
+    by_cases hn : s.marks o.name = .notknown
+    · have e := visit_decides os s o h hf hpo hs hn
+      have g1 : Good (visit .inSchemaOrProcessed os s o) := (visit_rel os s o h hf hpo).1
+      have f1 := visit_fdone os s o h hf hpo
+      have s1 : SelSettled os (visit .inSchemaOrProcessed os s o).marks := by
+        rw [e]
+        intro i o' hl hsel
+        by_cases ee : i = o.name
+        · rw [ee]; simp [setMark]
+        · rw [show ({ s with marks := setMark s.marks o.name .canprocess } : St).marks i = s.marks i from setMark_other _ _ _ _ ee]
+          exact hs i o' hl hsel
+      have r := ih (fun o' ho' => hown o' (List.mem_cons_of_mem _ ho')) _ g1 f1 s1
+      have hdec : (visit .inSchemaOrProcessed os s o).marks o.name = .canprocess := by rw [e]; exact setMark_self _ _ _
+      refine ⟨r.1, r.2.1, r.2.2.1, ?_, ?_⟩
+      · intro o' ho'
+        rcases List.mem_cons.mp ho' with rfl | ho'
+        · rw [r.2.2.2.2 o'.name (by rw [hdec]; decide), hdec]; decide
+        · exact r.2.2.2.1 o' ho'
+      · intro k hk
+        have : (visit .inSchemaOrProcessed os s o).marks k = s.marks k := by
+          rw [e]
+          by_cases ee : k = o.name
+          · rw [ee] at hk; exact absurd hn hk
+          · exact setMark_other _ _ _ _ ee
+        rw [r.2.2.2.2 k (by rw [this]; exact hk), this]
+    · have e : visit .inSchemaOrProcessed os s o = s := (visit_rel os s o h hf hpo).2.2.1 hn
+      rw [e]
+      have r := ih (fun o' ho' => hown o' (List.mem_cons_of_mem _ ho')) s h hf hs
+      refine ⟨r.1, r.2.1, r.2.2.1, ?_, r.2.2.2.2⟩
+      intro o' ho'
+      rcases List.mem_cons.mp ho' with rfl | ho'
+      · rw [r.2.2.2.2 o'.name hn]; exact hn
+      · exact r.2.2.2.1 o' ho'
+
+end StepModel.GenFiles.Pass
